@@ -320,6 +320,21 @@ def parser_jobs(pid):
     return out
 
 
+def owned_member_specs():
+    """frame-only contracts of the owning members that Value's Reset / move constructor / Value(String&&) call (object code, assumed)"""
+    mv = dict(requires=['__CPROVER_w_ok(self, sizeof(*self))', '__CPROVER_w_ok(src, sizeof(*src))'], assigns=['*self', '*src'], ensures=[])
+    mvr = dict(mv, ensures=['__CPROVER_return_value == self'])
+    rs = dict(requires=['__CPROVER_w_ok(self, sizeof(*self))'], assigns=['*self'], ensures=[])
+    return {'String__char_ctor__String__char_rr': dict(mv, stub_body=cex_stubs()['String__char_ctor__String__char_rr']['stub_body']),
+            'String__char_op_assign__String__char_rr': dict(mvr, stub_body=cex_stubs()['String__char_op_assign__String__char_rr']['stub_body']),
+            'Array__Value__char_op_assign__Array__Value__char_rr': dict(mvr, stub_body=cex_stubs()['Array__Value__char_op_assign__Array__Value__char_rr']['stub_body']),
+            'HashTable__String__char_HAItem_T__String__char_Value__char_Reset': dict(rs, stub_body='  __builtin_memset(self, 0, sizeof(*self));'),
+            'HashTable__String__char_HAItem_T__String__char_Value__char_op_assign__HashTable__String__char_HAItem_T__String__char_Value__char_rr':
+                dict(mvr, stub_body='  *self = *src; __builtin_memset(src, 0, sizeof(*src)); return self;'),
+            'Array__Value__char_Reset': dict(rs, stub_body='  __builtin_memset(self, 0, sizeof(*self));'),
+            'String__char_Reset': dict(rs, stub_body='  __builtin_memset(self, 0, sizeof(*self));')}
+
+
 def leaf_jobs():
     """the Value<char> members and TrimLeft the parser proofs rely on, enforced on their real bodies"""
     out = [dict(name='TrimLeft<char>', unit=UNIT, fn=FN_TRIM, roots=['Qentem::StringUtils::TrimLeft<char, unsigned int>'], specs={FN_TRIM: trim_spec(True)}, ghosts=GHOSTS, pre=PRE,
@@ -335,4 +350,13 @@ def leaf_jobs():
         out.append(dict(name='Value<char>.%s.kind' % nm, unit=UNIT, fn=fn, roots=[q], cut_qual=CUT_QUAL, specs={fn: value_specs(enforce=fn)[fn]},
                         solver='cadical', timeout=300, must_have=['postcondition'],
                         clause='the value kind recorded by %s is the one the parser contracts rely on' % nm))
+    om = owned_member_specs()
+    for nm, fn, q in (('Reset', FN_V_RESET, 'Qentem::Value<char>::Reset'),
+                      ('Value(Value&&)', FN_V_MOVE, 'Qentem::Value<char>::Value(Qentem::Value<char> &&)'),
+                      ('Value(String&&)', FN_V_STR, 'Qentem::Value<char>::Value(Qentem::String<char> &&)')):
+        sp = dict(om)
+        sp[fn] = value_specs(enforce=fn)[fn]
+        out.append(dict(name='Value<char>.%s.kind' % nm, unit=UNIT, fn=fn, roots=[q], cut_qual=CUT_QUAL, specs=sp, replace=list(om), prune_specs=True,
+                        solver='cadical', timeout=300, must_have=['postcondition'],
+                        clause='the value kind left by %s is the one the parser contracts rely on (the owning members it calls are frame-only contracts)' % nm))
     return out
